@@ -364,6 +364,7 @@ func c08Check(r *caseResult, scen, desc, mode string, w *world.World, pod world.
 var c06Shapes = []string{
 	poolJSON([]string{"10.0.1.0/24"}, []string{"10.10.1.1~10.10.1.2"}, "10.10.1.0/24", "10.10.1.254", 0),                // own node subnet N1
 	poolJSON([]string{"10.0.2.0/24"}, []string{"10.10.2.1~10.10.2.2"}, "10.10.2.0/24", "10.10.2.254", 2),                // own node subnet N2
+	poolJSON([]string{"10.0.1.0/24"}, []string{"10.10.1.4", "10.10.1.8~10.10.1.9"}, "10.10.1.0/24", "10.10.1.254", 0),   // two ranges with a hole that holds the range of the next shape (same pod subnet)
 	poolJSON([]string{"10.0.2.0/24"}, []string{"10.10.1.5~10.10.1.6"}, "10.10.1.0/24", "10.10.1.254", 0),                // shares the pod subnet of shape 0, disjoint range, other node subnet
 	poolJSON([]string{"10.0.1.0/24"}, []string{"10.20.0.1~10.20.0.2"}, "10.20.0.0/16", "10.20.0.254", 3),                // node subnet N1 shared with shape 0, other mask/gateway/VLAN
 	poolJSON([]string{"10.0.3.1/32"}, []string{"10.30.0.1"}, "10.30.0.0/24", "10.30.0.254", 0),                          // /32 node subnet
